@@ -6,6 +6,7 @@ import (
 	"fmt"
 	"go/types"
 	"math"
+	"strconv"
 	"strings"
 )
 
@@ -225,5 +226,72 @@ func init() {
 		}
 		i.ps.res.Stubs["fuseutil.WriteDirent (fuse_dirent layout: ino, off, namelen, type, name, padding to 8)"] = true
 		return total
+	}
+}
+
+// fmt.Sscanf: literal text and %d verbs over a concrete input (what datamon's chunk-name parser uses).
+func init() {
+	externals["fmt.Sscanf"] = func(fr *frame, args []value) value {
+		i := fr.i
+		in := goStr(i, args[0])
+		format := goStr(i, args[1])
+		var dests []value
+		if args[2] != nil {
+			dests = args[2].([]value)
+		}
+		n, p := 0, 0
+		fail := func(msg string) value { return tuple{n, i.newError(msg)} }
+		for f := 0; f < len(format); f++ {
+			c := format[f]
+			if c != '%' {
+				if p >= len(in) {
+					return fail("unexpected EOF")
+				}
+				if in[p] != c {
+					return fail("input does not match format")
+				}
+				p++
+				continue
+			}
+			f++
+			if f >= len(format) || format[f] != 'd' {
+				i.ps.unsupported("fmt.Sscanf model: only %%d is supported (format %q)", format)
+			}
+			start := p
+			if p < len(in) && (in[p] == '-' || in[p] == '+') {
+				p++
+			}
+			ds := p
+			for p < len(in) && in[p] >= '0' && in[p] <= '9' {
+				p++
+			}
+			if p == ds {
+				if p >= len(in) {
+					return fail("unexpected EOF")
+				}
+				return fail("expected integer")
+			}
+			v, err := strconv.ParseInt(in[start:p], 10, 64)
+			var u uint64
+			if err != nil {
+				u2, err2 := strconv.ParseUint(in[start:p], 10, 64)
+				if err2 != nil {
+					return fail("integer overflow")
+				}
+				u = u2
+			} else {
+				u = uint64(v)
+			}
+			if n >= len(dests) {
+				return fail("too few operands for format '%d'")
+			}
+			d := dests[n].(iface)
+			ptr := d.v.(*value)
+			pt := d.t.Underlying().(*types.Pointer)
+			k := basicKindOf(pt.Elem().Underlying())
+			*ptr = mkInt(k, u)
+			n++
+		}
+		return tuple{n, iface{}}
 	}
 }
